@@ -37,8 +37,12 @@ class UnixTransport(BaseTransport, scheme="unix"):
     async def close(self) -> None:
         if self.is_closed:
             return
+        self.is_closed = True
         self.writer.close()
-        await self.writer.wait_closed()
+        try:
+            await self.writer.wait_closed()
+        except ConnectionError as e:
+            logger.debug(f"Exception while waiting for the writer to close: {e!r}")
 
     async def write(
         self,
